@@ -120,7 +120,7 @@ Print Assumptions C19_products_in_float_range.
    model: 'ab,bc->ac' sliced on b, x = [[1,0],[2,0]], y = [[1,2],[3,4]].  The plain total
    [[1,2],[2,4]] has no zero entry, slice b=1 is exactly zero, its factor is 0, the slice
    is (nan, -inf) and the gathered mantissa is NaN: mantissa * 10^exponent <> result. *)
-Definition zs_prog : list (instr xq) := [pair_step 2 0 1 [[(0,0)];[(0,1)];[(1,0)];[(1,1)]]%nat].
+Definition zs_prog : list (instr xq) := [pair_step 2 0 1 [[(0,0)];[(0,1)];[(1,0)];[(1,1)]]%N].
 Definition zs_slices : list (list (list xq)) :=
   [ [[q 1 1; q 2 1]; [q 1 1; q 2 1]];  [[q 0 1; q 0 1]; [q 3 1; q 4 1]] ].
 Theorem C19_zero_slice_refuted : exists prog slices r s,
@@ -151,7 +151,7 @@ Print Assumptions C19_zero_slice_check_zero.
 (* ---- non-vacuity ---------------------------------------------------------------- *)
 (* the hypotheses of C19_strip_value hold for 'a,a->' on [1,2] . [3,4] over the reals *)
 Example C19_strip_value_nonvacuous :
-  let prog := [IPair 2 0 1 (R_bil [[(0,0);(1,1)]%nat])] in
+  let prog := [IPair 2 0 1 (R_bil [[(0,0);(1,1)]%N])] in
   let arrays := [[1;2];[3;4]] in
   Forall homog_instr prog /\ wf_prog R prog (seq 0 (length arrays)) = true /\
   Forall (fun t => fst t <> 0) (R_trace prog (combine (seq 0 (length arrays)) arrays) 0) /\
@@ -162,14 +162,16 @@ Proof.
   - reflexivity.
   - constructor; [|constructor]. cbn [fst].
     apply Rgt_not_eq. eapply Rlt_le_trans; [|apply Rmax_l].
-    apply Rabs_pos_lt. cbn. lra.
+    apply Rabs_pos_lt. unfold R_bil, bil_apply, fsum. cbn [map fold_right fst snd combine seq length].
+    change (N.to_nat 0) with 0%nat. change (N.to_nat 1) with 1%nat.
+    cbn [tpop tget Nat.eqb nth]. lra.
   - eexists. eexists. reflexivity.
 Qed.
 
 (* executed in the exact instance: 'ab,bc->ac' on scales 10^100 and 10^-100, unsliced,
    value preserved, mantissa max 1, exponent finite *)
 Example C19_exact_instance_runs :
-  let prog := [pair_step 2 0 1 [[(0,0);(1,2)];[(0,1);(1,3)];[(2,0);(3,2)];[(2,1);(3,3)]]%nat] in
+  let prog := [pair_step 2 0 1 [[(0,0);(1,2)];[(0,1);(1,3)];[(2,0);(3,2)];[(2,1);(3,3)]]%N] in
   let big := (10 ^ 100)%Z in
   let arrays := [[q (1*big) 1; q (2*big) 1; q (3*big) 1; q (-4*big) 1];
                  [XF (1 # 7); XF (2 # 7); XF (3 # 7); XF (5 # 7)]] in
